@@ -483,26 +483,44 @@ def real_checks(case, prog, th, want, wgrad, viol, sig, probes):
         viol.append(V("undefined", "finite", f"{cfg}: grad_estimate not finite", **sig))
         return 1
     sites = case["sites"] + ([case["cond_site"]] if case.get("cond_site") else [])
+    n_extra = 0
     if "flip_mvd" in sites[:-1] and "uniform_reinforce" not in sites and not viol:
-        # a measure-valued site evaluates the rest of the program through the *pure* continuation, which
-        # draws downstream ADEV sites with their keyed samplers (never consulted by the SCRIPTED trees, whose
-        # scripts answer from the site's parameters): REAL two-stage test of the mean gradient
-        probes["real_mean_gradient"] = 1
-        f = jax.jit(jax.vmap(gpjax.seed(g_fn), in_axes=(0, None, None)))
-        for stage, (kk, m) in enumerate(((case["key"] + 11, 3000), (case["key"] + 12, 24000))):
-            gs = np.stack([np.asarray(x, dtype=np.float64) for x in f(jax.random.split(jax.random.key(kk), m), th[0], th[1])], axis=1)
-            mean, se = gs.mean(axis=0), gs.std(axis=0, ddof=1) / math.sqrt(m) + 1e-12
-            z = np.abs(mean - np.asarray(wgrad)) / se
-            bad = (z > 6.0) & (np.abs(mean - np.asarray(wgrad)) > 3e-4 * (1 + np.abs(np.asarray(wgrad))))
-            if not bad.any():
-                break
-            if stage == 1:
-                i = int(np.argmax(bad))
-                viol.append(V("biased_gradient", "gradient_estimate_is_unbiased",
-                              f"REAL: mean grad_estimate[{i}] over {m} keys = {mean[i]:.5f} +- {se[i]:.5f}, exact {wgrad[i]:.5f} "
-                              f"(z = {z[i]:.1f}, after z > 6 on a first batch)", **sig))
-        return 3
-    return 1
+        n_extra += mean_gradient_test(case, prog, th, wgrad, viol, sig, probes)
+    # every primitive of the case once more behind a measure-valued site (two-site program flip_mvd -> X): the
+    # pure continuation of flip_mvd is the only public path that runs X's *keyed sampler*
+    if case["kind"] != "uniform_reinforce":
+        for X in sorted(set(case["sites"])):
+            if viol or X in ("uniform_reinforce", "flip_mvd") or X.endswith("_vec") or X.endswith("_vloc") or X.startswith("mvn"):
+                continue
+            sub = dict(case, sites=["flip_mvd", X], cond=False, cond_site=None, kind="mixed")
+            try:
+                sub_grad = ref_grad(sub, case["theta"])
+            except Exception:
+                continue
+            probes["keyed_sampler_" + X] = 1
+            n_extra += mean_gradient_test(sub, build(sub), th, sub_grad, viol, dict(sig, sites="flip_mvd+" + X, pure_kont_probe=True), probes)
+    return 1 + n_extra
+
+
+def mean_gradient_test(case, prog, th, wgrad, viol, sig, probes):
+    """REAL two-stage z-test of the mean grad_estimate over key batches against the exact gradient. A measure-valued
+    site evaluates the rest of the program through the *pure* continuation, which draws downstream ADEV sites with
+    their keyed samplers - never consulted by the SCRIPTED trees, whose scripts answer from the site's parameters."""
+    probes["real_mean_gradient"] = probes.get("real_mean_gradient", 0) + 1
+    f = jax.jit(jax.vmap(gpjax.seed(lambda t0, t1: prog.grad_estimate(t0, t1)), in_axes=(0, None, None)))
+    for stage, (kk, m) in enumerate(((case["key"] + 11, 3000), (case["key"] + 12, 24000))):
+        gs = np.stack([np.asarray(x, dtype=np.float64) for x in f(jax.random.split(jax.random.key(kk), m), th[0], th[1])], axis=1)
+        mean, se = gs.mean(axis=0), gs.std(axis=0, ddof=1) / math.sqrt(m) + 1e-12
+        z = np.abs(mean - np.asarray(wgrad)) / se
+        bad = (z > 6.0) & (np.abs(mean - np.asarray(wgrad)) > 3e-4 * (1 + np.abs(np.asarray(wgrad))))
+        if not bad.any():
+            return stage + 1
+        if stage == 1:
+            i = int(np.argmax(bad))
+            viol.append(V("biased_gradient", "gradient_estimate_is_unbiased",
+                          f"REAL: mean grad_estimate[{i}] over {m} keys = {mean[i]:.5f} +- {se[i]:.5f}, exact {wgrad[i]:.5f} "
+                          f"(z = {z[i]:.1f}, after z > 6 on a first batch)", **sig))
+    return 2
 
 
 def shrink(case):
